@@ -44,7 +44,8 @@ def c19(run):
     tr = os.path.join(dr, "events.ndjson")
     s2, _ = run_harness(["record-set", tr, "3", str(2000 if t else 150), "60"])
     # wider universes (5 and 8 bits): the encoding handles every bit position the same way only if it says so
-    for bits, hists, ops in ((5, 600 if t else 60, 40), (8, 120 if t else 16, 30)):
+    # 10 bits: element values beyond one byte
+    for bits, hists, ops in ((5, 600 if t else 60, 40), (8, 120 if t else 16, 30), (10, 40 if t else 6, 25)):
         trw = os.path.join(dr, "events_b%d.ndjson" % bits)
         sw, _ = run_harness(["record-set", trw, str(bits), str(hists), str(ops)])
         accw, rejw, tlcw, linesw = validate_trace("Trace_BddSet", trw, {"Bits": bits}, os.path.join(run.prop, "tv_b%d" % bits), shards=8, boundary='"k":"reset"')
